@@ -10,6 +10,7 @@ import (
 	"context"
 	"sort"
 
+	sdccache "github.com/sdcio/cache/pkg/cache"
 	"github.com/sdcio/data-server/pkg/config"
 	"github.com/sdcio/data-server/pkg/tree"
 	"github.com/sdcio/data-server/pkg/verifrt"
@@ -70,6 +71,70 @@ func v17Updates(variant int) []*sdcpb.Update {
 			&sdcpb.Update{Path: vPath(vPE("network-instance", "name", "ni1"), vPE("interface", "name", "lo1.0"), vPE("interface-ref"), vPE("interface")), Value: vStrTV("lo1")})
 	}
 	return u
+}
+
+// v17OnDemandTree: a tree built the way replaceIntent builds it - the intent's values only,
+// the running store is NOT loaded into the tree - so that validators load running values on
+// demand while the tree is being walked: the leafref of interface-ref/subinterface resolves
+// its key current()/../interface, which exists only in the running store and itself is a
+// leafref that dangles (lo5).
+func v17OnDemandTree(env *vEnv) *tree.RootEntry {
+	ctx := context.Background()
+	ifRef := []string{"network-instance", "ni1", "interface", "system0.0", "interface-ref", "interface"}
+	_ = env.model.WriteValue(ctx, "ds", &sdccache.Opts{Store: sdccache.StoreConfig, Path: [][]string{ifRef}}, vBytes(vStrTV("lo5")))
+	treeSCC := tree.NewTreeCacheClient(env.ds.Name(), env.ds.cacheClient)
+	tc := tree.NewTreeContext(treeSCC, env.ds.schemaClient, env.ds.Name())
+	tc.GetTreeSchemaCacheClient().RefreshCaches(ctx)
+	root, err := tree.NewTreeRoot(ctx, tc)
+	if err != nil {
+		panic(err)
+	}
+	tc.SetActualOwner("A")
+	upds := []*sdcpb.Update{
+		{Path: vPath(vPE("interface", "name", "system0"), vPE("subinterface", "index", "0"), vPE("description")), Value: vStrTV("d")},
+		{Path: vPath(vPE("network-instance", "name", "ni1"), vPE("interface", "name", "system0.0"), vPE("interface-ref"), vPE("subinterface")), Value: vUintTV(0)},
+	}
+	cu, err := env.ds.expandAndConvertIntent(ctx, "A", 10, upds)
+	if err != nil {
+		panic(err)
+	}
+	flagNew := tree.NewUpdateInsertFlags()
+	flagNew.SetNewFlag()
+	if err := root.AddCacheUpdatesRecursive(ctx, cu, flagNew); err != nil {
+		panic(err)
+	}
+	root.FinishInsertionPhase(ctx)
+	return root
+}
+
+// VerifValidateOnDemandLoad: sequential validation twice and concurrent validation once over
+// trees in which validation loads a running value on demand; the three verdicts must be equal
+// whatever the map iteration does with entries created while a children map is being ranged
+// over (Go: "may be produced during the iteration or may be skipped" - the engine explores both).
+func VerifValidateOnDemandLoad() {
+	errs1, warns1 := v17Verdict(v17OnDemandTree(vNewEnv()), false)
+	verifrt.Reach("sequential-done")
+	errs2, warns2 := v17Verdict(v17OnDemandTree(vNewEnv()), false)
+	verifrt.Reach("sequential-again-done")
+	verifrt.Assert(len(errs1) > 0, "C17-scenario-has-errors")
+	v17Same(errs1, errs2, "C17-repeated-sequential-run-same-errors")
+	v17Same(warns1, warns2, "C17-repeated-sequential-run-same-warnings")
+	if verifrt.Param("concurrent", 1) == 1 {
+		errs3, warns3 := v17Verdict(v17OnDemandTree(vNewEnv()), true)
+		verifrt.Reach("concurrent-done")
+		verifrt.Assert(verifrt.Goroutines() == 0, "C17-validators-all-finished")
+		v17Same(errs1, errs3, "C17-same-errors")
+		v17Same(warns1, warns3, "C17-same-warnings")
+	}
+}
+
+func v17Same(a, b []string, label string) {
+	verifrt.Assert(len(a) == len(b), label)
+	if len(a) == len(b) {
+		for i := range a {
+			verifrt.Assert(a[i] == b[i], label)
+		}
+	}
 }
 
 // VerifValidateConcurrent: for every explored interleaving the concurrent
